@@ -324,6 +324,8 @@ class Scheduler:
         self.timeouts = 0            # timeouts delivered because nothing else could run
         self.forced_timeouts = 0     # timeouts delivered by strategy choice
         self.idle_streak = 0
+        self.spin = 0                # consecutive select() calls that returned at once without any progress
+        self.fair_yields = 0
         self.max_steps = max_steps
         self.max_idle_timeouts = max_idle_timeouts
         self.clock = impl.CLOCK
@@ -349,6 +351,8 @@ class Scheduler:
         if self.keep_events:
             t = self.cur
             self.events.append((t.name if t else "-", kind, data))
+        if kind in ("send", "append", "finish", "pipe-recv", "clear", "appendleft", "popleft", "recv", "spawn"):
+            self.spin = 0
         if kind in ("send", "append", "finish", "pipe-recv", "clear"):
             self.idle_streak = 0
 
@@ -539,6 +543,27 @@ class Scheduler:
                     if l != res:
                         self.guards[l].add("@" + res)
         self.point(self.visible_res is None or res in self.visible_res)
+
+    def spinning(self):
+        """Fairness: a thread that polls (select() returns at once, nothing changes) cannot keep the baton for
+        ever - a real scheduler would run the others.  After 3 fruitless rounds it is parked until some other
+        thread has executed a point (or nobody else can run).  Not a preemption; the choice among the others is
+        a decision like at any blocking point."""
+        self.spin += 1
+        if self.spin < 3:
+            return
+        me = self.cur
+        snap = self.steps
+
+        def others_ran():
+            if self.steps > snap:
+                return True
+            return not any(t is not me and t.state != FINISHED and t.what != "fair-yield" and t.enabled()
+                           for t in self.ts)
+        if not others_ran():
+            self.fair_yields += 1
+            self.spin = 0
+            self.block(others_ran, "fair-yield")
 
     def block(self, cond, what, deadline=None, wakeable=False):
         """Park the running thread until cond() holds (returns True) or its virtual deadline is
@@ -1048,6 +1073,8 @@ class SelectShim:
             timed_out = not s.block(ready, "select", dl)
             # a select() that timed out returns empty lists, whatever became ready since
             r, w = ([], []) if timed_out else SelectShim._ready(rlist, wlist)
+        if w and not r and not timed_out:
+            s.spinning()
         s.event("select-ret", pipe=any(isinstance(x, PipeR) for x in r), sock=any(isinstance(x, SSock) for x in r),
                 w=len(w), timeout=timed_out)
         return r, w, []
